@@ -253,13 +253,13 @@ def expected_message(method, a, mid):
     """Abstract message that a successful `method(a)` must put on the wire (per the docstrings)."""
     ctr = list(a.get("controls") or [])
     if method == "bind_simple":
-        return {"t": "BindRequest", "id": mid, "controls": ctr, "version": 3, "name": a.get("dn") or "",
+        return {"t": "BindRequest", "id": mid, "controls": ctr, "version": a.get("_version", 3), "name": a.get("dn") or "",
                 "auth": {"t": "Simple", "password": a.get("password") or ""}}
     if method == "bind_sasl":
-        return {"t": "BindRequest", "id": mid, "controls": ctr, "version": 3, "name": a.get("dn") or "",
+        return {"t": "BindRequest", "id": mid, "controls": ctr, "version": a.get("_version", 3), "name": a.get("dn") or "",
                 "auth": {"t": "Sasl", "mechanism": a["mechanism"], "credentials": a.get("cred")}}
     if method == "bind":
-        return {"t": "BindRequest", "id": mid, "controls": ctr, "version": 3, "name": a["dn"], "auth": a["auth"]}
+        return {"t": "BindRequest", "id": mid, "controls": ctr, "version": a.get("_version", 3), "name": a["dn"], "auth": a["auth"]}
     if method == "extended_request":
         return {"t": "ExtendedRequest", "id": mid, "controls": ctr, "name": a["name"], "value": a.get("value")}
     if method == "search_request":
@@ -457,6 +457,7 @@ class Gen:
         self.mega = 0.0  # share of the "huge" lengths that are about 1 MiB
         self.invalid_known = False  # byzantine peers only: the paged-results control with a missing / malformed value
         self.odd_known = False  # set by byzantine peers only: known value-less controls carrying a value
+        self.versions = False  # binds naming another protocol version than 3
         self.bad_text = bad_text  # probability of a str that cannot be encoded (lone surrogate): the send call must fail cleanly
         self.big = big
         self.huge = huge
@@ -592,6 +593,13 @@ class Gen:
                                             "password": self.r.choice(["p", "", "a:b"])}, "controls": self.controls()}
 
     def a_bind_any(self):
+        m, a = self._a_bind_any()
+        if self.versions and self.r.random() < 0.2:
+            # the session's public `version` attribute is set by the application before the bind (LDAPv2 peers exist)
+            a["_version"] = self.r.choice([2, 2, 2, 1, 4])
+        return m, a
+
+    def _a_bind_any(self):
         r = self.r
         x = r.random()
         edge_a = [c for c in self.customs if c.startswith("EdgeAuth")]
